@@ -27,6 +27,7 @@ SP = 'emd/spectra.py'
 FUNCTIONS = ['emd.spectra.freq_from_phase', 'emd.spectra.phase_from_freq', 'emd.utils.wrap_phase', 'emd.spectra.frequency_transform (hilbert branch; phase_from_complex_signal by contract)',
              'emd.utils.amplitude_normalise (2-d input; interp_envelope by contract)']
 ASSUMPTIONS = [
+    'assumed scipy contracts for the transform length: signal.hilbert(x, N) returns N samples (obligation at the call: N is None or the record length); scipy.fft.next_fast_len(n) is SOME length >= n',
     'floats are mathematical reals; pi is a real constant in (3.14159, 3.1416)',
     'assumed numpy contracts: gradient (unit spacing), cumsum (spec function sumR), real % (result in [0, m), congruent mod m - IEEE fmod can return m itself for tiny negative arguments: not modelled)',
     'assumed scipy / numpy contracts: signal.hilbert is linear, np.angle(c z) = np.angle(z) and |c z| = c |z| for c > 0 (scale lemmas); phase_from_complex_signal is a function of the analytic signal',
